@@ -1,4 +1,4 @@
-import LolHtml.Lemmas.ChunkStep
+import LolHtml.Lemmas.ChunkStep5
 import LolHtml.Thm.C01
 /-!
 # C02 — chunk-boundary invariance, and the schedule-independence half of C09
@@ -153,18 +153,22 @@ example (tbl : Table) (last : Bool) :
 
 /-! ## What remains: the statements to reach -/
 
-/-- **One state-function invocation** (the "step horizon" theorem): either both runs make the same step
-(`LockOut`), or — only when the split input ends before the whole input — the split run breaks and its
-re-based machine is related to the whole machine before the step (`BreakOut`), which has at most run
-its enter actions. -/
-def C02_step_statement : Prop :=
-  ∀ (κ : Type) (env : Env κ) (fs : FlagMap) (inpS inpW : Bytes) (δ d skip : Nat) (K : Nat → κ → κ → Prop) (ms mw : M κ),
-    WfChunkWith env.tbl fs = true → Frame inpS inpW δ → OpsSim env.ops inpS inpW δ K →
-    BRel env.tbl fs inpW δ d skip ms mw → K d ms.x.sink mw.x.sink → (ms.c.isLast = true → Closed inpS inpW δ) →
+/-- **C02_step (the "step horizon" theorem).** One state-function invocation from related machines
+(`BRel`): either both runs make the same step (`LockOut`: same signal, related machines and sinks, equal
+total consumed at a common break), or — only when the split input ends before the whole input — the split
+run breaks (`BreakOut`) and its re-based machine is related, in the frame `δ + consumed`, to the whole machine
+`mw0` that has at most run its enter actions (`stateFn mw0 = stateFn mw`). -/
+theorem C02_step {κ : Type} {env : Env κ} {inpS inpW : Bytes} {δ : Nat} {K : Nat → κ → κ → Prop}
+    (F : Frame inpS inpW δ) (hops : OpsSim env.ops inpS inpW δ K) {fs : FlagMap}
+    (hwf : WfChunkWith env.tbl fs = true) {d skip : Nat} {ms mw : M κ}
+    (hb : BRel env.tbl fs inpW δ d skip ms mw) (hK : K d ms.x.sink mw.x.sink)
+    (hil : ms.c.isLast = true → Closed inpS inpW δ) :
     LockOut env.tbl fs inpW δ K (stateFn env inpS ms) (stateFn env inpW mw) ∨
-    (¬ Closed inpS inpW δ ∧ ∃ sd ms0 mw0 skip', env.tbl.state? ms.c.state = some sd ∧
-      stateFn env inpW mw0 = stateFn env inpW mw ∧
-      BreakOut fs ms.c.state sd env.ops inpS δ d ms0 mw0 skip' (stateFn env inpS ms))
+    (¬ Closed inpS inpW δ ∧ ∃ (x0 : Ctx κ) (mw0 : M κ),
+      stateFn env inpW mw0 = stateFn env inpW mw ∧ K d x0.sink mw0.x.sink ∧ mw0.x.sim = x0.sim ∧
+      x0.prevConsumed = mw0.x.prevConsumed + δ ∧
+      BreakOut env.tbl fs env.ops inpS inpW δ d x0 mw0 (stateFn env inpS ms)) :=
+  stateFn_sim F hops hwf hb hK hil
 
 /-- outcome of a sequence of calls: the first result that is not `ok` -/
 def outcome : List CallRes → CallRes
